@@ -999,6 +999,18 @@ def decide_features(prop, tier, seed):
                         cid = x.split("\t")[1]
                         problems.append("feature set %s differs from default on case %s" % (name, case_lines(d).get(cid, cid))); break
         if name != "default": os.remove(outp)
+        # the exhaustive dumps (class of every scalar value in code-point order, brackets, Level operations) must not
+        # depend on the feature set either
+        for mode in ("tables", "levels"):
+            rc_t, dump, _ = sh([b["bin"], mode])
+            dg = hashlib.sha256(dump.encode()).hexdigest()
+            digests["%s/%s" % (name, mode)] = dg
+            if name == "default":
+                base_dumps = dict(globals().get("_c20_base", {})); base_dumps[mode] = dump; globals()["_c20_base"] = base_dumps
+            elif dump != globals()["_c20_base"].get(mode):
+                a = globals()["_c20_base"].get(mode, "").splitlines(); bl = dump.splitlines()
+                first = next((x + "  |  " + y for x, y in zip(a, bl) if x != y), "length differs")
+                problems.append("feature set %s: `%s` dump differs from the default build: %s" % (name, mode, first[:200]))
     # default build must itself correspond to the model (shared correspondence run)
     verdicts = load_verdicts(d)
     ndiff = sum(1 for v in verdicts if v["diff"])
